@@ -312,31 +312,43 @@ func ruleHeapIndex(w *World, r *Report, pfx string) {
 	rule := pfx + ".O-INDEX"
 	if sw := w.Func("mpb.(priorityQueue).Swap"); sw != nil && len(sw.Blocks) == 1 {
 		i, j := ssa.Value(sw.Params[1]), ssa.Value(sw.Params[2])
-		elemStores := map[ssa.Value]ssa.Value{} // index param -> stored elem source index param
-		idxStores := map[ssa.Value]ssa.Value{}
-		order := []ssa.Instruction{}
+		// symbolic execution of the single block over the two slots: slot -> which original element it holds
+		const (
+			origI = 1
+			origJ = 2
+		)
+		slot := map[ssa.Value]int{i: origI, j: origJ} // current content of pq[i], pq[j]
+		loaded := map[ssa.Value]int{}                 // loaded *Bar value -> original element
+		index := map[int]ssa.Value{}                  // original element -> last index stored into it
+		okShape := true
 		for _, in := range sw.Blocks[0].Instrs {
-			st, ok := in.(*ssa.Store)
-			if !ok {
-				continue
-			}
-			order = append(order, in)
-			if ia, ok := st.Addr.(*ssa.IndexAddr); ok {
-				if ld, ok := st.Val.(*ssa.UnOp); ok {
-					if src, ok := ld.X.(*ssa.IndexAddr); ok {
-						elemStores[ia.Index] = src.Index
+			switch x := in.(type) {
+			case *ssa.UnOp:
+				if x.Op == token.MUL {
+					if ia, ok := x.X.(*ssa.IndexAddr); ok && (ia.Index == i || ia.Index == j) {
+						loaded[x] = slot[ia.Index]
 					}
 				}
-			}
-			if f, ok := fieldOf(st.Addr); ok && f.Owner == tBar && f.Name == "index" {
-				if ld, ok := f.Base.(*ssa.UnOp); ok {
-					if ia, ok := ld.X.(*ssa.IndexAddr); ok {
-						idxStores[ia.Index] = st.Val
+			case *ssa.Store:
+				if ia, ok := x.Addr.(*ssa.IndexAddr); ok && (ia.Index == i || ia.Index == j) {
+					if e, ok := loaded[x.Val]; ok {
+						slot[ia.Index] = e
+					} else {
+						okShape = false
+					}
+					continue
+				}
+				if f, ok := fieldOf(x.Addr); ok && f.Owner == tBar && f.Name == "index" {
+					if e, ok := loaded[f.Base]; ok {
+						index[e] = x.Val
+					} else {
+						okShape = false
 					}
 				}
 			}
 		}
-		ok := elemStores[i] == j && elemStores[j] == i && idxStores[i] == i && idxStores[j] == j
+		// afterwards: pq[i] holds the original j with index i, pq[j] the original i with index j
+		ok := okShape && slot[i] == origJ && slot[j] == origI && index[origJ] == i && index[origI] == j
 		r.Check(ok, rule, "priorityQueue.Swap", w.pos(sw.Pos()), "elements exchanged, both heap indices updated", "Swap does not exchange the two bars and record their new indices: heap.Fix / UpdateBarPriority would act on the wrong element")
 	}
 	if pu := w.Func("mpb.(*priorityQueue).Push"); pu != nil {
